@@ -395,7 +395,7 @@ def run_frame(case, ctx):
                     check_result(tag, r, exp, info, addressed_cols={j for j in range(nc) if m[:, j].any()} if all(x in ('1', '2x1', 'all2x1', 'ifs', 'iis', 'iff', 'iii', 'sii') for x in sig) else None)
             unchanged(ctx, 'frame.bloc', f, before, info)
     elif fam == 'astype':
-        targets = [('float', float, 'float64'), ('str', str, None), ('object', object, 'object')]
+        targets = [('float', float, 'float64'), ('str', str, None), ('object', object, 'object'), ('float32', np.float32, 'float32'), ('int16', np.int16, 'int16')]
         for kname, k in label_keys(ck, cref, full=False):
             if kname.split('-with')[0] not in ('label', 'label-list', 'label-slice', 'mask', 'absent-label', 'label-slice-absent-end'):
                 continue   # astype[] takes column labels (the selector interfaces with Series / ILoc keys are assign / drop / mask)
@@ -408,8 +408,10 @@ def run_frame(case, ctx):
                 ctx.transition()
                 tag = f'frame.astype[c]|index={ck}|{kname}|to={tname}'
                 is_bool_array = isinstance(k, np.ndarray) and k.dtype == bool
-                if tname == 'float' and not cerr and any(isinstance(grid[j][0], str) for j in as_positions(csel) if nr):
-                    continue   # text cannot be cast to float: NumPy refuses, nothing to compare
+                if tname in ('float', 'float32', 'int16') and not cerr and any(isinstance(grid[j][0], str) for j in as_positions(csel) if nr):
+                    continue
+                if tname == 'int16' and not cerr and any(isinstance(grid[j][0], float) for j in as_positions(csel) if nr):
+                    continue   # float -> int16 truncates by definition: only int columns get the narrower int target   # text cannot be cast to float: NumPy refuses, nothing to compare
                 try:
                     r = f.astype[k](t)
                     got_err = None
@@ -444,7 +446,7 @@ def run_frame(case, ctx):
                     elif d != dtypes0[j]:
                         ok = False
                     if tname != 'str' or j not in cp:
-                        if not all(eqv(a, b) or (tname == 'float' and j in cp and float(a) == float(b)) for a, b in zip(rc[j], grid[j])):
+                        if not all(eqv(a, b) or (tname in ('float', 'float32', 'int16') and j in cp and float(a) == float(b)) for a, b in zip(rc[j], grid[j])):
                             ok = False
                     else:
                         if [str(x) for x in rc[j]] != [str(x) for x in grid[j]]:
